@@ -33,8 +33,28 @@ theorem globals_initSt : Globals Ref.initSt := by
     | zero => omega
     | succ i => rfl
 
+theorem clean_of_lookup {x : String} {v : Val} : ∀ (l : List (String × Val)), (∀ p ∈ l, Clean p.2) →
+    List.lookup x l = some v → Clean v
+  | [], _, h => by simp at h
+  | (k, w) :: l, hl, h => by
+    rw [List.lookup_cons] at h
+    split at h
+    · injection h with h; subst h; exact hl (k, w) List.mem_cons_self
+    · exact clean_of_lookup l (fun p hp => hl p (List.mem_cons_of_mem _ hp)) h
+
+theorem cleanSt_initSt : CleanSt Ref.initSt := by
+  refine ⟨fun i x v hv => ?_, fun r y hy => ?_⟩
+  · cases i with
+    | zero =>
+      refine clean_of_lookup _ (fun p hp => ?_) hv
+      simp only [Ref.initSt, List.getD_cons_zero, List.mem_append, List.mem_cons, List.mem_map, List.not_mem_nil,
+        or_false] at hp
+      rcases hp with (rfl | rfl) | ⟨n, _, rfl⟩ <;> trivial
+    | succ i => exact absurd hv (by show (List.lookup x ([] : List (String × Val))) ≠ some v; simp)
+  · exact absurd hy (by show y ∉ ([] : List Val); simp)
+
 theorem relC_initSt : RelC initSt Ref.initSt 0 :=
-  ⟨rel_initSt.toRelCore, FnChainOk.root 0 (by decide) rfl ⟨[], rfl⟩, globals_initSt⟩
+  ⟨rel_initSt.toRelCore, FnChainOk.root 0 (by decide) rfl ⟨[], rfl⟩, globals_initSt, cleanSt_initSt⟩
 
 /-- loading a text keeps the relation -/
 theorem RelC.loaded {s : St} {rs : Ref.St} (h : RelC s rs 0) (hs : AtRest s) (code : List Instr) :
@@ -57,7 +77,7 @@ theorem RelC.loaded {s : St} {rs : Ref.St} (h : RelC s rs 0) (hs : AtRest s) (co
     by_cases hid : mainFn = id
     · subst hid; simp only [hs.main, if_true, Option.getD_some]
     · simp only [hid, if_false]; rw [← List.getD_eq_getElem?_getD]; rfl
-  refine ⟨⟨h.len, h.vars, h.nofn, h.chain, h.heap, rfl⟩, ?_, h.globals⟩
+  refine ⟨⟨h.len, h.vars, h.nofn, h.chain, h.heap, rfl⟩, ?_, h.globals, h.clean⟩
   have hcur : (loadState (clearTrace s) (clearTrace s) code).curfunc = s.curfunc := hs.cur.symm
   rw [hcur]
   exact h.fnchain.congr (s := s) (s' := loadState (clearTrace s) (clearTrace s) code) rfl
@@ -88,7 +108,7 @@ theorem runText_Fc (s : St) (rs : Ref.St) (p : List Expr) (hne : p ≠ []) (hp :
   cases hres : Ref.evalBegin n p 0 { rs with trace := [] } with
   | ok v rs' =>
     rw [hres] at hsim
-    obtain ⟨s1, r, l, rel1, -, -⟩ := hsim
+    obtain ⟨s1, r, l, rel1, -, -, -⟩ := hsim
     obtain ⟨N, hN⟩ := run_of_landsE hseg r l
     refine ⟨N, fun fuel hf => ?_⟩
     refine ⟨s1.jmp s1.pc (loadState (clearTrace s) (clearTrace s) code).data,
